@@ -305,8 +305,8 @@ func c03CheckWith(run *Run, c *c03Case, r *rand.Rand, shared *c03Tools) {
 
 func runC03(run *Run, replay string) Spec {
 	spec := Spec{
-		Level: "translation_validation",
-		Rule: "valid generated operations over the L1 supergraph schema × generated universes: Lean reference executor on (operation, variables) = on normalize(operation, variables); the default validator accepts the normalized operation; normalize is a fixed point on its output (printed form and variables); renamed variables, duplicated fields, an extra inline fragment and a literal argument turned into a variable reach the same printed form after the variables mapper. non-trivial = operations whose normalization changes the variables or that use named fragments; distinct = distinct (operation, variables, universe)",
+		Level:       "translation_validation",
+		Rule:        "valid generated operations over the L1 supergraph schema × generated universes: Lean reference executor on (operation, variables) = on normalize(operation, variables); the default validator accepts the normalized operation; normalize is a fixed point on its output (printed form and variables); renamed variables, duplicated fields, an extra inline fragment and a literal argument turned into a variable reach the same printed form after the variables mapper. non-trivial = operations whose normalization changes the variables or that use named fragments; distinct = distinct (operation, variables, universe)",
 		TrustedBase: []string{"the Lean reference executor GqlVerif.Gql.Exec as the meaning of an operation on a backend (the universe)", "the repository's parser, printer and default operation validator for the validity check", "the harness' operation generator and textual reformulations"},
 		Assumptions: []string{"the placeholder `__internal_typename: __typename` normalization puts into a selection set that @skip/@include emptied is not part of the response (the resolver drops it)", "list coercion and input-object default injection are not exercised: the L1 schema has no list or input-object arguments", "backends are universes of the Lean executor, not arbitrary resolvers"},
 	}
